@@ -46,8 +46,15 @@ func c11Apply(st *c11state, i int, s Step, idx int, observe bool) *Viol {
 		c.SetOverflow(uint16(s.A))
 		*m = uint32(uint16(s.A))*256 + *m%256
 	case "AddOne":
-		c.AddOne()
-		*m = (*m + 1) % mod24
+		// A > 1: a burst of A increments with nothing in between
+		n := s.A
+		if n < 1 {
+			n = 1
+		}
+		for k := int64(0); k < n; k++ {
+			c.AddOne()
+		}
+		*m = uint32((uint64(*m) + uint64(n)) % mod24)
 	case "Get":
 		if g := c.Get(); g != *m {
 			return fail("state!=model", fmt.Sprintf("Get()=%#x, model %#x", g, *m))
@@ -111,6 +118,9 @@ func c11Apply(st *c11state, i int, s Step, idx int, observe bool) *Viol {
 func runC11(h History) *Viol {
 	st := &c11state{real: make([]security.Count, len(h.Instances)), model: make([]uint32, len(h.Instances))}
 	for i, ic := range h.Instances {
+		if ic.Zero {
+			continue // zero value of security.Count, never Set: model 0
+		}
 		if v := c11Apply(st, i, Step{Inst: i, Op: "Set", A: ic.O, B: ic.S}, -1-i, h.Obs == 0); v != nil {
 			return v
 		}
@@ -169,10 +179,16 @@ func genC11(seed, index uint64, start uint32, buf []Step) (History, bool) {
 				s = s | 0xff // other instances sit just before a carry
 			}
 		}
+		if (i == 0 && start == 0 && index%2 == 0) || (i > 0 && r.Chance(10)) {
+			model[i] = 0
+			h.Instances = append(h.Instances, InstCfg{Zero: true})
+			continue
+		}
 		model[i] = s
 		h.Instances = append(h.Instances, InstCfg{O: int64(s / 256), S: int64(s % 256)})
 	}
 	n := 8 + r.Intn(33)
+	long := index%64 == 5 // long-run class: bursts of thousands of increments without a setter or a read
 	steps := buf[:0]
 	nontrivial := false
 	add := func(s Step) {
@@ -185,10 +201,14 @@ func genC11(seed, index uint64, start uint32, buf []Step) (History, bool) {
 		case "SetOverflow":
 			*m = uint32(uint16(s.A))*256 + *m%256
 		case "AddOne":
-			if *m%256 == 255 {
+			k := uint32(1)
+			if s.A > 1 {
+				k = uint32(s.A)
+			}
+			if *m%256+k > 255 {
 				nontrivial = true
 			}
-			*m = (*m + 1) % mod24
+			*m = uint32((uint64(*m) + uint64(k)) % mod24)
 		}
 		steps = append(steps, s)
 	}
@@ -197,6 +217,10 @@ func genC11(seed, index uint64, start uint32, buf []Step) (History, bool) {
 	for len(steps) < n {
 		inst := r.Intn(ninst)
 		switch x := r.Intn(100); {
+		case long && x < 35:
+			// 2^8, 2^16 and 2^17 are where hand-rolled carries and narrow side counters give up
+			k := []int64{255, 256, 257, 1000, 4096, 65535, 65536, 65537, 70000, 131072 + int64(r.Intn(512))}[r.Intn(10)]
+			add(Step{Inst: inst, Op: "AddOne", A: k})
 		case x < 30:
 			add(Step{Inst: inst, Op: "AddOne"})
 		case x < 45:
@@ -243,7 +267,7 @@ func genC11(seed, index uint64, start uint32, buf []Step) (History, bool) {
 func c11ShrinkArgs(s Step) []Step {
 	var out []Step
 	try := func(a, b int64) {
-		if a != s.A || b != s.B {
+		if (a != s.A || b != s.B) && a >= 0 {
 			t := s
 			t.A, t.B = a, b
 			out = append(out, t)
@@ -262,6 +286,13 @@ func c11ShrinkArgs(s Step) []Step {
 	case "SetOverflow":
 		try(0, 0)
 		try(0xffff, 0)
+	case "AddOne":
+		if s.A > 1 {
+			try(s.A/2, 0)
+			try(s.A-1, 0)
+			try(s.A-256, 0)
+			try(s.A-65536, 0)
+		}
 	}
 	return out
 }
@@ -385,7 +416,7 @@ func checkC11(tier string, seed uint64) int {
 		Coverage: map[string]interface{}{
 			"evaluations":         histories,
 			"distinct_nontrivial": distinct,
-			"rule": "one seeded operation history (8-44 steps over Set/SetSQN/SetOverflow/AddOne/Get/SQN/Overflow, 1-3 interleaved instances) per start state; " +
+			"rule": "one seeded operation history (8-44 steps over Set/SetSQN/SetOverflow/AddOne/Get/SQN/Overflow, 1-3 interleaved instances; every 64th history is a long-run history with bursts of 255..131k increments; state 0 is also entered as the zero value without Set) per start state; " +
 				"thorough enumerates every one of the 2^24 start states, quick draws 2^16 boundary-biased ones; non-trivial = the history crosses a 255->0 sequence-number carry " +
 				"or the 2^24-1->0 wrap at least once; distinct = distinct start states among those (bitset over 2^24)",
 			"samples":                  samples,
